@@ -33,9 +33,10 @@ impl FlowSet {
 //@   before "match ({ let i = __mr_o1;": proof {
 //@       let b = orig_i@;
 //@       assert(__mr_in@ == b.subrange(4, b.len() as int));
-//@       assert(length as int == set_body_len(b));
-//@       lemma_sub_sub2(b, 4, b.len() as int, 0, length as int);
-//@       lemma_sub_sub2(b, 4, b.len() as int, length as int, b.len() - 4);
+//@       let ln = __mr_o1@.len() as int;      // the bytes `take(..)` handed to the body parser (no name of /repo's locals is used)
+//@       assert(ln == set_body_len(b));
+//@       lemma_sub_sub2(b, 4, b.len() as int, 0, ln);
+//@       lemma_sub_sub2(b, 4, b.len() as int, ln, b.len() - 4);
 //@   }
 //@   ensures: flowset_post(*old(parser), *final(parser), orig_i, r)
 //@ end
